@@ -37,7 +37,7 @@
       from 1, and at least 1e-9 away from 0.98 and 1/0.98. *)
 From Coq Require Import List ZArith NArith QArith Bool String Lia.
 From RG Require Import Base.Str Base.Num Model.Recipe Model.Units Model.Lint Spec.LintSpec
-  Spec.Valid Proofs.RecipeScale Proofs.LintProofs Proofs.LintTotal Proofs.LintTolerance.
+  Spec.Valid Proofs.RecipeScale Proofs.LintProofs Proofs.LintTotal Proofs.LintTolerance Proofs.LintAccum.
 Import ListNotations.
 
 (** ** Small recipes used in the examples *)
@@ -160,17 +160,52 @@ Proof. exact unused_set_spec. Qed.
 
 (** ** 3. The verdict on the uses of one output *)
 
-(** Full statement (kept here):
-      exact_uses us -> decisive us -> verdict_model us = verdict_spec us
-    where decisive = the exact sum is not within 1e-9 of the 0.98 / 1 / 1.02
-    boundaries.  Proved below under one extra hypothesis: the float
-    accumulator made no rounding error in this run ([run_exact]: e.g. dyadic
-    proportions and quantities).  The final 2% test itself is fully analysed:
-    [C20_decisive_tolerance] (three roundings inside math.isclose, relative
-    error 2^-53 each, Proofs/LintTol.v).  Missing for the full statement: a
-    bound for the accumulated rounding errors of the sum (a few units of
-    2^-53 per use) against the 1e-9 margin.  At the boundary itself the float
-    sum can differ: see [C20_exact_full_use_remainder_refuted]. *)
+(** The verdict of the float computation is the documented (exact rational)
+    verdict: for uses given by ints / Fractions with exact unit conversions
+    ([ref_exact]), at most 2^20 of them, whenever the exact run is decisive
+    ([decisive_Q]: every accumulated term lies in [1e-17, 1e6], the sum stays
+    below 5e5, and at each remainder test and at the final 2% test the exact
+    sum S is at least 2e-9 * (S + 1) away from the boundary it is compared
+    with (1; 0.98, 1, 1/0.98), except where a remainder has just pinned it
+    to exactly 1).  Proof: |used - S| <= 4 i 2^-53 (S + 1) after i uses
+    (Proofs/LintAccum.v), and [C20_decisive_tolerance] for math.isclose.
+    Exact full use followed by a remainder is deliberately outside
+    [decisive_Q]: that is finding F16. *)
+Theorem C20_verdict_spec : forall sr idx refs us l,
+  output_lints sr idx refs = LOk l ->
+  Forall2 (fun r u => use_of (total_quantity sr) r = Some u) refs us ->
+  Forall (ref_exact (total_quantity sr)) refs ->
+  (Z.of_nat (List.length us) <= 1048576)%Z -> decisive_Q us ->
+  kinds l = verdict_spec us.
+Proof. exact verdict_spec_full. Qed.
+
+(** 1 of 4 eggs, a third, then the rest: nothing to report; without the
+    remainder: 'not used up' (the sum 7/12 is not a binary fraction: the float
+    run is inexact, and still decides like the exact one). *)
+Example C20_verdict_spec_ex2 :
+  let refs := [Reference eggs 0 (AQty (qty (NInt 1) None)); Reference eggs 0 (AProp (PropVal (NFrac 1 3) false (s " of")));
+               Reference eggs 0 (AProp (PropRem (s "remaining") []))] in
+  exists us,
+    Forall2 (fun r u => use_of (total_quantity eggs) r = Some u) refs us /\
+    Forall (ref_exact (total_quantity eggs)) refs /\ decisive_Q us /\ decisive_Q (firstn 2 us) /\
+    verdict_spec us = [] /\ verdict_spec (firstn 2 us) = [sub_recipe_not_used_up].
+Proof.
+  cbv zeta. eexists. split.
+  - repeat (constructor; [vm_compute; reflexivity|]). constructor.
+  - split.
+    + repeat constructor; vm_compute; try reflexivity; exact I.
+    + split; [|split; [|split; vm_compute; reflexivity]].
+      * unfold decisive_Q. cbn [dec]. repeat split; try right; vm_compute; intro K; discriminate K.
+      * unfold decisive_Q. cbn [dec firstn]. repeat split; try right; vm_compute; intro K; discriminate K.
+Qed.
+
+(** An alternative that also covers float-valued data, under the hypothesis
+    that the accumulator made no rounding error in this run ([run_exact]). *)
+(** Earlier, weaker form kept for float-valued data: instead of exactness of
+    the numbers it assumes that this run of the accumulator made no rounding
+    error ([run_exact], e.g. dyadic values) and that the final sum is
+    [decisive] (absolute 1e-9 margins).  For int / Fraction data
+    [C20_verdict_spec] above needs neither. *)
 Theorem C20_verdict_spec_partial : forall sr idx refs us l,
   output_lints sr idx refs = LOk l ->
   Forall2 (fun r u => use_of (total_quantity sr) r = Some u) refs us ->
